@@ -355,6 +355,31 @@ fn hover_projects() -> Vec<(&'static str, Vec<(&'static str, &'static str)>)> {
                 ("Lib/b.gom", "package Lib\n\nfn geta(v_p: P) -> int32 {\n    let v_n: int32 = v_p.a;\n    v_n\n}\nfn name() -> string {\n    let v_s: string = \"n\";\n    v_s\n}\n"),
             ],
         ),
+        (
+            // no file of the package imports anything: the entry file still sees its sibling's items
+            "two-files-no-imports",
+            vec![
+                ("main.gom", "package Main\n\nfn main() -> unit {\n    let v_u: string = side(3);\n    let w_u = side(4);\n    let v_l: Local = Local { k: true };\n    let w_l = Local { k: false };\n    let v_k: bool = v_l.k;\n    let w_k = w_l.k;\n    string_println(v_u + w_u + bool_to_string(v_k) + bool_to_string(w_k))\n}\n"),
+                ("side.gom", "package Main\n\nstruct Local { k: bool }\nfn side(v_n: int32) -> string {\n    let v_l: int32 = v_n + 1;\n    int32_to_string(v_l)\n}\n"),
+            ],
+        ),
+        (
+            // closures at the same offsets in two files; their parameters have no annotation (`w_*`: every
+            // occurrence of the name in a file must get one type)
+            "closure-parameters-at-same-positions",
+            vec![
+                ("main.gom", "package Main\nimport Lib\n\nfn main() -> unit {\n    let v_f: (string) -> bool = |w_x| w_x == \"a\";\n    let v_b: bool = v_f(\"a\");\n    string_println(bool_to_string(v_b) + int32_to_string(Lib::one()))\n}\n"),
+                ("othr.gom", "package Main\nimport Lib\n\nfn othr() -> unit {\n    let v_f: (int32) -> int32 = |w_x| w_x + 1111;\n    let v_b: int32 = v_f(2222);\n    string_println(int32_to_string(v_b) + int32_to_string(Lib::one()))\n}\n"),
+                ("Lib/lib.gom", "package Lib\n\nfn one() -> int32 { 1 }\n"),
+            ],
+        ),
+        (
+            "closure-parameters-at-same-positions-no-imports",
+            vec![
+                ("main.gom", "package Main\n\nfn main() -> unit {\n    let v_f: (string) -> bool = |w_x| w_x == \"a\";\n    let v_b: bool = v_f(\"a\");\n    string_println(bool_to_string(v_b))\n}\n"),
+                ("othr.gom", "package Main\n\nfn othr() -> unit {\n    let v_f: (int32) -> int32 = |w_x| w_x + 1111;\n    let v_b: int32 = v_f(2222);\n    string_println(int32_to_string(v_b))\n}\n"),
+            ],
+        ),
     ]
 }
 
@@ -407,7 +432,7 @@ impl Family for QueryAgree {
         &["C20"]
     }
     fn rule(&self) -> &'static str {
-        "on the 11 complete seed programs: hover at every character of every occurrence of a `v_*` binder or use must report the binder's declared type; at every `x.`/`Path::` cursor each offered completion, inserted (methods with synthesised arguments), must type-check; 2 projects whose packages have several files (same binder names and positions, different types): hover on every annotated binder and its uses in every file must report the file's own declaration; distinct = distinct (seed, occurrence) / (seed, cursor, item)"
+        "on the 11 complete seed programs: hover at every character of every occurrence of a `v_*` binder or use must report the binder's declared type; at every `x.`/`Path::` cursor each offered completion, inserted (methods with synthesised arguments), must type-check; 5 projects whose packages have several files (same binder names and positions, different types; a package none of whose files imports anything; closures at the same offsets in two files, with and without imports): hover on every annotated binder and its uses in every file must report the file's own declaration, and every occurrence of an unannotated closure parameter in a file gets one type; distinct = distinct (seed, occurrence) / (seed, cursor, item)"
     }
     fn cases(&self, _tier: Tier) -> Box<dyn Iterator<Item = Value> + '_> {
         Box::new((0..SEEDS.len()).map(|i| json!({"seed": i})).chain((0..hover_projects().len()).map(|i| json!({"project": i}))))
@@ -451,6 +476,37 @@ impl Family for QueryAgree {
                             });
                             break;
                         }
+                    }
+                }
+            }
+            // binders without an annotation (`w_*`): every occurrence of the name in a file gets one type,
+            // and a type, not an unsolved variable
+            for (rel, text) in &files {
+                let path = root.join(rel);
+                let mut seen: std::collections::BTreeMap<String, Vec<(u32, u32, String)>> = std::collections::BTreeMap::new();
+                for t in lexer::lex(text) {
+                    if !t.text.starts_with("w_") {
+                        continue;
+                    }
+                    let (line, col) = line_col(text, u32::from(t.range.start()) as usize);
+                    checks += 1;
+                    let got = match guarded(|| hover_type(&path, text, line, col)) {
+                        Ok(Ok(s)) => squash(&s),
+                        Ok(Err(e)) => format!("<err:{}>", e),
+                        Err(p) => format!("<panic:{}>", p),
+                    };
+                    seen.entry(t.text.to_string()).or_default().push((line, col, got));
+                }
+                for (name, occ) in seen {
+                    let first = occ[0].2.clone();
+                    if let Some((line, col, got)) = occ.iter().find(|(_, _, g)| *g != first || g.contains("TypeVar") || g.starts_with('<')) {
+                        rep.findings.push(Finding {
+                            property: "C20",
+                            class: if got.starts_with("<panic") { "query.panic.hover".into() } else { "hover.binder-and-use-disagree".into() },
+                            site: format!("project={};file={};binder={}", pname, rel, name),
+                            detail: format!("project {} file {}: hover on the occurrences of `{}` says {:?} (occurrence at {}:{} says {})", pname, rel, name, occ.iter().map(|o| o.2.clone()).collect::<Vec<_>>(), line, col, got),
+                            replay: json!({"kind": "query-project", "files": files, "file": rel, "line": line, "col": col, "expected": first}),
+                        });
                     }
                 }
             }
